@@ -900,7 +900,7 @@ void MatrixDotProduct_LOOP_UNROLLING(matrix *a, matrix *b, matrix *r)
   for(i = 0; i < a->row; i++){
     for(j = 0; j < b->col; j++){
       res = 0.f;
-      for(k = 0; k < a->col-3; k+=4){
+      for(k = 0; k+3 < a->col; k+=4){
         res += a->data[i][k] * b->data[k][j] + a->data[i][k+1] * b->data[k+1][j] + a->data[i][k+2] * b->data[k+2][j] + a->data[i][k+3] * b->data[k+3][j];
       }
       for (k = a->col - (a->col%4); k < a->col; k++){
